@@ -101,7 +101,7 @@ def specs(T):
     T.body_contains(G, 'GenomicArray.autosomes', 'if not is_auto.any():\n        return self')
 
     # ---- pooling --------------------------------------------------------------
-    for frag in ('filenames = sorted(filenames, key=core.fbase)', 'if len(cnarr1) == 0:',
+    for frag in ('filenames = sorted(filenames, key=core.fbase)', 'if len(cnarr1) == 0:\n        for fname in filenames[1:]:\n            if len(read_cna(fname)):\n                raise RuntimeError(',
                  "if not np.array_equal(cnarr1.data.loc[:, ('chromosome', 'start', 'end', 'gene')].values, "
                  "cnarrx.data.loc[:, ('chromosome', 'start', 'end', 'gene')].values):",
                  "raise RuntimeError(f'{fname} bins do not match those in {filenames[0]}')",
@@ -133,6 +133,7 @@ def specs(T):
         ('BIVAR_NUM_POW', 'Z', num_pow),
         ('BIVAR_DEN_COEF', 'Q', den_coef),
         ('BIVAR_SINGLE', 'Q', one_digit),
+        ('BIVAR_MASK_BOUND', 'Q', nums[3]),
         ('FEMALE_Y_LOG2', 'Q', -sx[0]),
         ('MALE_SEX_SHIFT', 'Q', sx[1]),
         ('FLAT_SEX_LOG2', 'Q', -fl[0]),
